@@ -37,11 +37,11 @@ func H_C12_no_shared_writes() {
 	newer := refCat(refClassDef("ZInner", []string{"n", "added", "s"}), []byte{0x60}, refInt(4), refStr("new"), refStr("s"))
 	vFreeze(newer, "shared-input-bytes")
 	foreign := [][]byte{
-		refCat([]byte{'M', 0x00}, refStr("a"), refInt(1), []byte{'Z'}),              // typed map with an empty type name
+		refCat([]byte{'M', 0x00}, refStr("a"), refInt(1), []byte{'Z'}),                   // typed map with an empty type name
 		refCat([]byte{'M'}, refStr("no.such.Type"), refStr("a"), refInt(1), []byte{'Z'}), // unknown map type
-		refCat([]byte{'V'}, refStr("[no.such"), refInt(1), refInt(1)),               // unknown list type
-		refCat(refClassDef("no.such.Class", []string{"a"}), []byte{0x60}, refInt(1)), // unknown class
-		refCat([]byte{0x55, 0x00}, refInt(1), []byte{'Z'}),                            // variable-length list, empty type name
+		refCat([]byte{'V'}, refStr("[no.such"), refInt(1), refInt(1)),                    // unknown list type
+		refCat(refClassDef("no.such.Class", []string{"a"}), []byte{0x60}, refInt(1)),     // unknown class
+		refCat([]byte{0x55, 0x00}, refInt(1), []byte{'Z'}),                               // variable-length list, empty type name
 		refCat([]byte{'H'}, refStr("a"), refInt(1), []byte{'Z'}),
 	}
 	switch vChoice("call", 14) {
